@@ -400,3 +400,7 @@ def run(ck: Check, repo: Repo) -> None:
     rule_usage_first(ck, repo)
     rule_raisers(ck, repo)
     rule_no_stale_state(ck, repo)
+    # 'the template loses information -> failure': every returned header passed the post-render check (shared with C07-R1)
+    from . import c07
+    r6 = ck.rule("R6", "post-render check on every path that returns a header (shared with C07-R1)")
+    c07.postcondition(ck, repo, r6)
